@@ -1,5 +1,3 @@
-use std::vec;
-
 use log::debug;
 
 use crate::range_value;
@@ -64,29 +62,26 @@ fn crc56(message: &[u32]) -> u32 {
 /// The reminder of the message
 ///
 pub(crate) fn reminder(message: &[u32]) -> u32 {
-    let generator = [0b11111111u16, 0b11111010u16, 0b00000100u16, 0b10000000u16];
-
-    let mut bytes = message[0..message.len() - 6]
-        .iter()
-        .map(|&x| (x & 0b1111) as u8)
-        .collect::<Vec<u8>>();
-    bytes.append(vec![0; 6].as_mut());
-
-    for i in 0..bytes.len() - 6 {
-        for j in 0..8u8 {
-            let mask = 0x80 >> j;
-            if bytes[i] & mask != 0 {
-                bytes[i] ^= (generator[0] >> j) as u8;
-                bytes[i + 1] ^= (generator[0] << (8 - j)) as u8 | (generator[1] >> j) as u8;
-                bytes[i + 2] ^= (generator[1] << (8 - j)) as u8 | (generator[2] >> j) as u8;
-                bytes[i + 3] ^= (generator[2] << (8 - j)) as u8 | (generator[3] >> j) as u8;
+    // Mode S CRC-24 (generator 0x1FFF409) remainder of the whole frame, parity field included
+    let mut remainder = 0u32;
+    for &nibble in message {
+        for bit in (0..4).rev() {
+            let carry = remainder & 0x80_0000;
+            remainder = ((remainder << 1) & 0xFF_FFFF) | ((nibble >> bit) & 1);
+            if carry != 0 {
+                remainder ^= 0xFF_F409;
             }
         }
     }
 
-    (((bytes[bytes.len() - 3]) as u32) << 16)
-        | (((bytes[bytes.len() - 2]) as u32) << 8)
-        | (bytes[bytes.len() - 1]) as u32
+    match (message[0] << 1) | (message[1] >> 3) {
+        // extended squitters: PI is the plain CRC
+        17 | 18 => remainder,
+        // all-call reply: the low 7 bits carry the interrogator code
+        11 => remainder & 0xFF_FF80,
+        // address/parity formats: the CRC is overlaid with the address and cannot be checked
+        _ => 0,
+    }
 }
 
 #[cfg(test)]
